@@ -1,5 +1,6 @@
 import Sidetree.Did
 import Sidetree.Lemmas.RoundTrip
+import Sidetree.Props.C05Num
 import Sidetree.Drv.Apply
 namespace Sidetree.Drv
 open Sidetree
@@ -62,9 +63,9 @@ def processKind (c : Json) : Json :=
     let again := match Did.resolve hashFam (oraclesOf c) ns id with
       | some a => a
       | none => .str "err"
-    -- the hypotheses of `Props.C17P.process_result_resolves`, evaluated on this case
+    -- the hypotheses of `Props.C17P.process_result_resolves_ints`, evaluated on this case
     let numFree := match req.bind Parser.decodeCreate, (req.bind GoJson.topObject).bind (fun top => GoJson.str top "type") with
-      | some cr, some ty => RT.numFree (Did.createRequestJson ty cr)
+      | some cr, some ty => Props.C05.intsOnly (Did.createRequestJson ty cr)
       | _, _ => false
     .obj [("class", .str "ok"), ("result", r), ("resolve_again", again),
           ("premises", .bool (numFree && ns.toList.contains ':'))]
